@@ -106,7 +106,7 @@ def digest(walk, spec_out_iter=None):
             fs, ft = locate(pos)
             ls, lt = locate(pos + ln - 1)
             desc = describe(first, body, v5)
-            c.packets.append({"view": segs[k] if k < len(segs) else None, "desc": desc, "kind": desc.get("kind"), "pid": desc.get("pid"),
+            c.packets.append({"view": segs[k] if k < len(segs) else None, "desc": desc, "kind": desc.get("kind"), "pid": desc.get("pid"), "len": ln,
                               "first_step": fs, "t_first": ft, "last_step": ls, "t_last": lt})
             pos += ln
             c.packet_ends.add(pos)
@@ -681,6 +681,80 @@ def mon_C15(walk, d):
     return out
 
 
+def mon_C16(walk, d):
+    """limits announced in CONNACK are honoured by what is written, and only violating operations are failed by validation"""
+    out = []
+    for c in d["conns"]:
+        if not c.connack or c.connack.get("rc") != 0 or c.connack_step is None:
+            continue
+        caps = c.connack["caps"]
+        for p in c.packets:
+            if p["first_step"] <= c.connack_step or not p.get("view"):
+                continue
+            kind, kv = parse_kv(p["view"])
+            if "mps" in caps and p["len"] > caps["mps"]:
+                out.append(("oversize-written", f"a {p['len']}-byte {kind} was written on a connection whose server announced maximum packet size {caps['mps']}", p["last_step"]))
+            if kind == "publish":
+                if "mq" in caps and int(kv_get(kv, "qos", "0")) > caps["mq"]:
+                    out.append(("qos-above-maximum", f"QoS {kv_get(kv, 'qos')} publish written, server maximum QoS is {caps['mq']}", p["last_step"]))
+                if caps.get("ra") == 0 and kv_get(kv, "retain", "0") == "1":
+                    out.append(("retain-unavailable", "retained publish written although the server announced Retain Available = 0", p["last_step"]))
+            if kind == "subscribe":
+                filters = [unhex(v.split(":")[0]) for k, v in kv if k == "sub"]
+                if caps.get("wsa") == 0 and any(b"#" in f or b"+" in f for f in filters):
+                    out.append(("wildcard-unavailable", "wildcard subscription written although the server announced Wildcard Subscription Available = 0", p["last_step"]))
+                if caps.get("ssa") == 0 and any(f.startswith(b"$share/") for f in filters):
+                    out.append(("shared-unavailable", "shared subscription written although the server announced Shared Subscription Available = 0", p["last_step"]))
+    # operations failed by send-time validation must violate a limit of the connection they were dequeued on
+    for idx, lst in d["completions"].items():
+        step, t, outcome = lst[0]
+        if outcome != "err.PacketValidationFailure" or idx not in d["ops"]:
+            continue
+        op = d["ops"][idx]
+        conn = next((c for c in reversed(d["conns"]) if c.open_step <= step and (c.close_step is None or c.close_step >= step)), None)
+        if conn is None or not conn.connack or conn.connack_step is None or conn.connack_step > step:
+            continue
+        caps = conn.connack["caps"]
+        _, pkv = parse_kv(op["packet"])
+        reasons = []
+        if op["kind"] == "pub":
+            if "mq" in caps and op["qos"] > caps["mq"]:
+                reasons.append("qos")
+            if caps.get("ra") == 0 and op["retain"]:
+                reasons.append("retain")
+            if "mps" in caps:
+                # largest possible wire form: full topic plus a topic alias property
+                topic = unhex(kv_get(pkv, "topic", "x"))
+                payload = unhex(kv_get(pkv, "payload", "x"))
+                props = 3 + sum(5 + len(unhex(a)) + len(unhex(b)) for a, b in (v.split(":") for k, v in pkv if k == "up"))
+                for key in ("ct", "rt", "cd"):
+                    if kv_get(pkv, key):
+                        props += 3 + len(unhex(kv_get(pkv, key)))
+                props += 2 if kv_get(pkv, "pfi") else 0
+                props += 5 if kv_get(pkv, "mei") else 0
+                rl = 2 + len(topic) + (2 if op["qos"] else 0) + len(enc_vli_len(props)) + props + len(payload)
+                if 1 + len(enc_vli_len(rl)) + rl > caps["mps"]:
+                    reasons.append("size")
+            else:
+                pass
+        else:
+            filters = [unhex(v.split(":")[0]) for k, v in pkv if k in ("sub", "tf")]
+            if caps.get("wsa") == 0 and any(b"#" in f or b"+" in f for f in filters):
+                reasons.append("wildcard")
+            if caps.get("ssa") == 0 and any(f.startswith(b"$share/") for f in filters):
+                reasons.append("shared")
+            if "mps" in caps:
+                reasons.append("size?")      # not judged for subscribe/unsubscribe
+        if not reasons:
+            out.append(("valid-rejected", f"operation {idx} ({op['kind']}) was failed by send-time validation although it satisfies every limit the server announced ({caps})", step))
+    return out
+
+
+def enc_vli_len(n):
+    from walk import enc_vli
+    return enc_vli(n)
+
+
 def mon_C17(walk, d):
     out = []
     for c in d["conns"]:
@@ -863,4 +937,4 @@ def mon_C14(walk, d):
 
 
 MONITORS = {"C01": mon_C01, "C04": mon_C04, "C05": mon_C05, "C06": mon_C06, "C07": mon_C07, "C09": mon_C09, "C10": mon_C10,
-            "C11": mon_C11, "C14": mon_C14, "C15": mon_C15, "C17": mon_C17, "C18": mon_C18}
+            "C11": mon_C11, "C14": mon_C14, "C15": mon_C15, "C16": mon_C16, "C17": mon_C17, "C18": mon_C18}
